@@ -86,8 +86,15 @@ def sites_clause(chk, F, A, base_fns=None):
     # validating conversions that exist only in the serde configuration (the targets of serde(try_from = ...)):
     # their construction sites are where the invariant must be re-established
     base = base_fns or set()
+    # ... and the conversions the generated Deserialize bodies actually call (`serde(try_from = ..)` may name a conversion
+    # that also exists without the serde feature, such as TryFrom<(u8, U7, U7)> for RawShortMessage)
+    gates = set()
+    for site, c, t in scan.call_sites(F):
+        if c and scan.is_serde_generated(F, site[0]) and 'Deserialize' in site[0] and c.get('path') == 'core::convert::TryFrom::try_from' \
+                and c.get('resolved') and c['resolved'] in F.fns:
+            gates.add(c['resolved'])
     conv_sites = [(st, p, v) for st, p, v in scan.aggregate_sites(F, TRACKED)
-                  if not scan.is_serde_generated(F, st[0]) and st[0] not in base]
+                  if not scan.is_serde_generated(F, st[0]) and (st[0] not in base or st[0] in gates)]
     groups = {}
     for st, p, v in conv_sites:
         groups.setdefault((st[0], p), []).append(st)
